@@ -48,6 +48,7 @@ def ordinal_keys(items):
 R1_ALLOWED_OUTSIDE = {
     # (function, callee) : reason
     ("procfs::ProcfsHandle::try_from_fd::{closure#0}", "rustix::fs::accessat"): "masking probe on the handle's own fd, constant names, AT_SYMLINK_NOFOLLOW",
+    ("procfs::ProcfsBase::into_path::{closure#0}", "rustix::fs::statat"): "existence probe of the constant /proc/<thread-self candidate> paths, AT_SYMLINK_NOFOLLOW, result only is_ok(); must not use a wrapper (it runs while a wrapper describes its own failure)",
     ("utils::dir::remove_all", "rustix::fs::Dir::read_from"): "directory scan of the already opened subdirectory fd",
     ("<Fd as utils::fd::FdExt>::as_unsafe_path_unchecked", "std::fs::read_link"): "diagnostics only (FrozenFd Display)",
     ("handle::HandleRef::try_clone", "rustix::fd::BorrowedFd::<'_>::try_clone_to_owned"): "F_DUPFD_CLOEXEC",
@@ -82,15 +83,16 @@ def r1_layering(ctx):
                                 "raw OS call %s outside the syscall layer (src/syscalls.rs) and not in the exemption table" % t.callee))
             continue
         # side conditions
-        if t.callee == "rustix::fs::accessat":
-            fl = t.args[3].int_value() if t.args[3].is_const else None
+        if t.callee in ("rustix::fs::accessat", "rustix::fs::statat"):
+            ai = 3 if t.callee.endswith("accessat") else 2
+            fl = t.args[ai].int_value() if t.args[ai].is_const else None
             if fl is None:
                 ipa, _ = shared(ctx)
-                bits = ipa.bits_of(b.path)
-                v = bits.arg_value(t, 3) if bits else None
+                bits = ipa.bits_of(b.path) or _local_bits(ctx, b.path)
+                v = bits.arg_value(t, ai) if bits else None
                 fl = v.must_set if v is not None else 0
             if not (fl & AT_SYMLINK_NOFOLLOW):
-                out.append(violated("C05.R1", key, t.where(), "accessat probe without AT_SYMLINK_NOFOLLOW"))
+                out.append(violated("C05.R1", key, t.where(), "%s probe without AT_SYMLINK_NOFOLLOW" % t.callee.rsplit("::", 1)[-1]))
                 continue
         out.append(holds("C05.R1", key, t.where(), "exempt: " + reason))
     return out
